@@ -148,7 +148,10 @@ var decoderFuncs = map[string]bool{
 }
 
 // ruleFreshDecode: a configuration document is decoded into a fresh local and exactly that value is published.
-func ruleFreshDecode(p *Program, r *Result) {
+// ruleFreshDecode: with delivery=false only what race freedom and immutability of published values need is
+// decided (fresh destination, the value published is the fresh one); with delivery=true also that a
+// successful load always delivers it (blocking send on every success path) after the content checks.
+func ruleFreshDecode(p *Program, r *Result, delivery bool) {
 	n := 0
 	for _, fn := range p.UFuncs() {
 		for _, c := range allCalls(fn) {
@@ -205,21 +208,36 @@ func ruleFreshDecode(p *Program, r *Result) {
 			// publication: a blocking send of exactly this local, on the success edges only, before return nil
 			var sends []*ssa.Send
 			nonBlocking := false
+			var sent []ssa.Value
 			for _, b := range fn.Blocks {
 				for _, in := range b.Instrs {
 					switch x := in.(type) {
 					case *ssa.Send:
 						if typeIs(x.X.Type(), modPath+"/cmds/server/config", "ServerConfig") {
 							sends = append(sends, x)
+							sent = append(sent, x.X)
 						}
 					case *ssa.Select:
 						for _, st := range x.States {
 							if st.Dir == types.SendOnly && st.Send != nil && typeIs(st.Send.Type(), modPath+"/cmds/server/config", "ServerConfig") {
 								nonBlocking = true
+								sent = append(sent, st.Send)
 							}
 						}
 					}
 				}
+			}
+			if !delivery {
+				allFresh := len(sent) > 0
+				for _, v := range sent {
+					if u, ok := v.(*ssa.UnOp); !(ok && u.Op == token.MUL && u.X == ssa.Value(a)) {
+						allFresh = false
+					}
+				}
+				r.cond(allFresh, "R-FRESHDECODE", key+":published", p.Pos(call.Pos()),
+					fmt.Sprintf("every publication in this function (%d) sends a copy of the freshly decoded local: no consumer ever holds memory a later load writes", len(sent)),
+					"a value other than the freshly decoded local is published")
+				continue
 			}
 			if nonBlocking {
 				r.bad("R-FRESHDECODE", key+":published", p.Pos(call.Pos()), "the configuration is published through a select (non-blocking or racing send): a successfully loaded document can be dropped while Load reports success, leaving the previous configuration in force")
@@ -278,7 +296,11 @@ func ruleFreshDecode(p *Program, r *Result) {
 	if n == 0 {
 		r.undecided("R-FRESHDECODE", "decoders", "-", "no decode into a *config.ServerConfig found")
 	}
-	r.floor("R-FRESHDECODE", 6)
+	if delivery {
+		r.floor("R-FRESHDECODE", 6)
+	} else {
+		r.floor("R-FRESHDECODE", 4)
+	}
 }
 
 // ruleConsumerReplaces: the loader's update loop replaces (does not merge) providers and filters.
@@ -456,7 +478,7 @@ var threadSafeLib = map[string]string{
 // confined types: allocated per connection / per request and never published to another goroutine.
 // The table is checked: no allocation site outside the request path (see ruleConfined).
 var confinedTypes = map[string]string{
-	"": "response sessions sessionContext crypter Packet Header AuthenStart AuthenReply AuthenContinue AuthorRequest AuthorReply AcctRequest AcctReply readBuffer Request Version Client",
+	"":                                       "response sessions sessionContext crypter Packet Header AuthenStart AuthenReply AuthenContinue AuthorRequest AuthorReply AcctRequest AcctReply readBuffer Request Version Client",
 	"cmds/server/handlers":                   "AuthenticateASCII AuthenticatePAP AuthenticateStart AuthorizeRequest AccountingRequest ctxLogger ResponseLogger writer authenActionStart",
 	"cmds/server/config/authorizers/stringy": "CommandBasedAuthorizer SessionBasedAuthorizer",
 	"proxy":                                  "Header",
@@ -512,6 +534,29 @@ func addrRoot(v ssa.Value, depth int) (rootKind, ssa.Value, []string) {
 			v = x.X
 		case *ssa.MakeSlice, *ssa.MakeMap:
 			return rootLocal, v, path
+		case *ssa.Phi:
+			// a slice or pointer chosen among alternatives (b := p.Body[off:]; if .. { b = b[:n] }): the
+			// root is decided only when every alternative has the same one
+			var k0 rootKind
+			var r0 ssa.Value
+			first := true
+			for _, e := range x.Edges {
+				if e == ssa.Value(x) {
+					continue
+				}
+				k, rt, _ := addrRoot(e, depth)
+				if first {
+					k0, r0, first = k, rt, false
+					continue
+				}
+				if k != k0 || (k != rootLocal && rt != r0) {
+					return rootForeign, v, path
+				}
+			}
+			if first {
+				return rootForeign, v, path
+			}
+			return k0, r0, path
 		case *ssa.UnOp:
 			if x.Op != token.MUL {
 				return rootForeign, v, path
